@@ -314,6 +314,9 @@ func runCoordinator(args []string) int {
 			}
 		}
 	}
+	if wc, ok := chk.(interface{ Workers() int }); ok && os.Getenv("VERIF_WORKERS") == "" && *workers <= 0 {
+		nw = wc.Workers()
+	}
 	if nw > n {
 		nw = n
 	}
@@ -475,6 +478,16 @@ func runCoordinator(args []string) int {
 			} else {
 				inconclusive = append(inconclusive, fmt.Sprintf("case %d exceeded the watchdog twice", sj.idx))
 			}
+		}
+	}
+	// race detector reports (C19 is built with -race; GORACE log_path is set by run.sh)
+	if raceDir := os.Getenv("VERIF_RACE_DIR"); raceDir != "" {
+		viol, harness := collectRaces(raceDir, *prop, *tier, seed)
+		procFindings = append(procFindings, viol...)
+		total.Counters["race_reports_in_kvql"] += int64(len(viol))
+		total.Counters["race_reports_in_harness"] += int64(harness)
+		if harness > 0 {
+			inconclusive = append(inconclusive, fmt.Sprintf("%d race report(s) involve harness code only (see %s)", harness, raceDir))
 		}
 	}
 	total.Findings = append(total.Findings, procFindings...)
@@ -670,6 +683,73 @@ func runWitness(args []string) int {
 	return 2
 }
 
+// collectRaces parses the race detector's log files: one finding per pair of
+// innermost kvql frames; reports whose conflicting accesses are not both in
+// package kvql are counted separately (they would be the harness' own races).
+func collectRaces(dir, prop, tier string, seed uint64) (viol []rt.Finding, harnessOnly int) {
+	files, _ := filepath.Glob(filepath.Join(dir, "race.*"))
+	seen := map[string]bool{}
+	for _, f := range files {
+		b, err := os.ReadFile(f)
+		if err != nil {
+			continue
+		}
+		for _, block := range strings.Split(string(b), "==================") {
+			if !strings.Contains(block, "WARNING: DATA RACE") {
+				continue
+			}
+			// the first two stacks are the conflicting accesses
+			var tops []string
+			for _, sec := range strings.Split(block, "\n\n") {
+				head := strings.TrimSpace(sec)
+				if !(strings.HasPrefix(head, "WARNING: DATA RACE") || strings.HasPrefix(head, "Write at") || strings.HasPrefix(head, "Read at") || strings.HasPrefix(head, "Previous write at") || strings.HasPrefix(head, "Previous read at") || strings.HasPrefix(head, "Atomic") || strings.HasPrefix(head, "Previous atomic")) {
+					continue
+				}
+				top := ""
+				for _, line := range strings.Split(sec, "\n") {
+					l := strings.TrimSpace(line)
+					if l == "" || strings.HasPrefix(l, "WARNING") || strings.HasPrefix(l, "Write at") || strings.HasPrefix(l, "Read at") || strings.HasPrefix(l, "Previous") || strings.HasPrefix(l, "Atomic") || strings.HasPrefix(l, "/") {
+						continue
+					}
+					// innermost frame that belongs to kvql or to the harness (library frames are skipped)
+					if !strings.Contains(l, "c4pt0r/kvql.") && !strings.Contains(l, "kvqlverif/") && !strings.HasPrefix(l, "main.") {
+						continue
+					}
+					top = l
+					break
+				}
+				if top != "" {
+					tops = append(tops, top)
+				}
+				if len(tops) == 2 {
+					break
+				}
+			}
+			inKvql := len(tops) == 2 && strings.Contains(tops[0], "c4pt0r/kvql.") && strings.Contains(tops[1], "c4pt0r/kvql.")
+			if !inKvql {
+				harnessOnly++
+				continue
+			}
+			strip := func(s string) string { return strings.TrimSuffix(s, "()") }
+			a, b2 := strip(tops[0]), strip(tops[1])
+			if a > b2 {
+				a, b2 = b2, a
+			}
+			key := a + " <-> " + b2
+			if seen[key] {
+				continue
+			}
+			seen[key] = true
+			lines := strings.Split(strings.TrimSpace(block), "\n")
+			if len(lines) > 60 {
+				lines = lines[:60]
+			}
+			viol = append(viol, rt.Finding{Prop: prop, Oracle: "data-race", Cluster: key, Case: -1, Tier: tier, Seed: seed, Detail: map[string]any{"report": lines, "log_file": f}})
+		}
+	}
+	return viol, harnessOnly
+}
+
 // ---------------------------------------------------------------- replay
 
 func runReplay(args []string) int {
@@ -692,6 +772,13 @@ func runReplay(args []string) int {
 	}
 	debug.SetMaxStack(256 << 20)
 	fmt.Printf("REPLAY property=%s tier=%s seed=%d case=%d recorded oracle=%s\n", f.Prop, f.Tier, f.Seed, f.Case, f.Oracle)
+	if f.Case < 0 {
+		fmt.Println("this finding was made by the coordinator from the race detector's log (it is not tied to one case); the recorded report:")
+		b, _ := json.MarshalIndent(f.Detail, "", " ")
+		fmt.Println(string(b))
+		fmt.Printf("VIOLATION property=%s replay=%s\n", f.Prop, *file)
+		return 1
+	}
 	rec := rt.NewRec()
 	c := &rt.Ctx{Prop: f.Prop, Tier: f.Tier, Seed: f.Seed, Case: f.Case, R: rt.NewRand(f.Seed, f.Prop, uint64(f.Case)), Rec: rec, Avoid: avoidSet(f.Prop), Verbose: true}
 	chk.Run(c)
